@@ -188,7 +188,10 @@ func (f *Fam) genBegin(r *rand.Rand, s *Snapshot) string {
 		}
 		mea := f.mea
 		age := pick(r, 0, 1*sec, mea-1, mea, mea+1, 10*mea)
-		pw := s.Vals[a].Tokens.Quo(sdk.NewInt(1000000)).Int64()
+		pw := int64(1)
+		if q := s.Vals[a].Tokens.Quo(sdk.NewInt(1000000)); q.IsInt64() {
+			pw = q.Int64()
+		}
 		if r.Intn(4) == 0 {
 			pw = pick(r, 0, 1, pw+5, pw/2)
 		}
@@ -209,6 +212,9 @@ func (f *Fam) genTx(r *rand.Rand, s *Snapshot) string {
 	if len(f.gen.past) > 0 && r.Intn(14) == 0 {
 		old := f.gen.past[r.Intn(len(f.gen.past))]
 		m := []string{"deliver", "deliver", "check", "simulate"}[r.Intn(4)]
+		if m == "simulate" && strings.Contains(old, "mut=msg") {
+			m = "deliver" // a simulation checks no signature: a changed message would simply be another message
+		}
 		return "tx " + m + " " + old
 	}
 	line := f.genTx1(r, s)
